@@ -131,6 +131,33 @@ func (p *Carriers) Run() {
 	}
 }
 
+// PacedSource: sends its files one by one, waiting delays[i] milliseconds before the i-th
+type PacedSource struct {
+	sp.BaseProcess
+	paths  []string
+	delays []int
+}
+
+func NewPacedSource(wf *sp.Workflow, name string, paths []string, delays []int) *PacedSource {
+	p := &PacedSource{BaseProcess: sp.NewBaseProcess(wf, name), paths: paths, delays: delays}
+	p.InitOutPort(p, "out")
+	wf.AddProc(p)
+	return p
+}
+func (p *PacedSource) Run() {
+	defer p.CloseAllOutPorts()
+	for i, path := range p.paths {
+		if i < len(p.delays) {
+			time.Sleep(time.Duration(p.delays[i]) * time.Millisecond)
+		}
+		ip, err := sp.NewFileIP(path)
+		if err != nil {
+			p.Fail(err)
+		}
+		p.OutPort("out").Send(ip)
+	}
+}
+
 // PRecorder: pass-through for parameter streams, logging what it receives in order
 type PRecorder struct {
 	sp.BaseProcess
@@ -303,6 +330,14 @@ func buildAndRun(d Desc) {
 				c.Out(pn)
 			}
 			procs[n.Name] = c
+		case "pacedsource":
+			delays := []int{}
+			for _, v := range n.Values {
+				var ms int
+				fmt.Sscan(v, &ms)
+				delays = append(delays, ms)
+			}
+			procs[n.Name] = NewPacedSource(wf, n.Name, n.Paths, delays)
 		case "carriers":
 			// Paths: the members, "|" separates the groups; Values: the delay of each group's sub-stream in ms
 			groups := [][]string{{}}
